@@ -47,5 +47,16 @@ META["C20"] = {
     "technique": "Lean 4 invariant proofs over the dhtIterate loop with an arbitrary responder + differential correspondence on simulated networks",
 }
 
+META["C17"] = {
+    "text": "Proof: parse(marshal key) = key for every OID asn1 accepts both ways and every key body; keys are equal iff their "
+            "encodings are; a hash-of-encoding fingerprint is a function of the key alone; PeerID text round-trips, preserves byte "
+            "order (alphabet regenerated from peer.go and proved strictly increasing), and UnmarshalText accepts only the canonical "
+            "43-character text of the id it yields. Real MarshalPublicKey/ParsePublicKey/EqualPublicKeys/PeerID text functions and "
+            "both fingerprinters are compared with the model / checked by the oracle each run.",
+    "design_ref": "DESIGN.md section 5 C17",
+    "note": _NOTE,
+    "technique": "Lean 4 round-trip and order theorems over regenerated alphabet facts + differential correspondence",
+}
+
 _PENDING = "check under construction in this build round; will be claimed once its model, theorems and correspondence stream pass on the unchanged tree"
 NOT_APPLICABLE = {("C%02d" % i): _PENDING for i in range(1, 21)}
